@@ -195,6 +195,20 @@ def f3_run(carve):
                 yield "Table(dict)", pdt.Table(d, name="d"), lambda: (d["a"].append(9), d.update({"zz": [0, 0]}))
                 vals = [1, 2]
                 yield "is_in(*list)", t >> pdt.filter(t.a.is_in(*vals)), lambda: vals.append(3)
+                # expressions are values: building on an expression must not change it
+                pos = pdt.when(t.a > 1).then(1)
+                yield "open case expression reused", t >> pdt.mutate(k=pos), lambda: pos.when(t.a < 2).then(-1).otherwise(0)
+                pos2 = pdt.when(t.a > 1).then(1)
+                yield "open case expression (expression)", pos2, lambda: pos2.when(t.b > 3).then(7)
+                wc = pdt.when(t.a > 1)
+                first = wc.then(1)
+                yield "when clause used twice", first, lambda: wc.then(2).when(t.c > 0).then(3)
+                base = t.a + t.b
+                yield "arithmetic subexpression reused", t >> pdt.mutate(k=base), lambda: (base * 2, base.cast(pdt.Float64()), base.is_in(1, 2), base.map({3: 4}))
+                win = t.c.shift(1, arrange=t.b)
+                yield "window expression reused under another grouping", t >> pdt.mutate(k=win), lambda: (t >> pdt.group_by(t.a) >> pdt.mutate(k2=win) >> pdt.ungroup() >> pdt.export(pdt.Polars()))
+                cexpr = pdt.C.c.shift(1, arrange=pdt.C.b)
+                yield "C-expression resolved against two tables", cexpr, lambda: ((t >> pdt.mutate(k=cexpr)), (t >> pdt.rename({"b": "c", "c": "b"}) >> pdt.mutate(k=cexpr) >> pdt.export(pdt.Polars())))
 
             for label, obj, mutate_arg in cases():
                 n += 1
